@@ -5,7 +5,7 @@ from hypothesis import strategies as st
 
 from .. import gen, oracle, prog, schedchecks as sc
 from ..harness import CaseResult, Harness
-from ..schedcase import Model, execute
+from ..schedcase import Model, execute, make_executor
 
 PID = "C03"
 LEVEL = "exploration"
@@ -34,11 +34,22 @@ def run_case(case: Dict[str, Any]) -> CaseResult:
     pre: Dict[str, Any] = {}
     must_not_run = False
     res.evals = 0
+    early: Dict[int, Any] = {}
+    if any(call.get("early") for call in case["calls"]):
+        # executor objects created at the start of the history and run later (after other calls / dag.setup())
+        try:
+            built = prog.build(P, is_async=bool(case.get("async")), mc=case.get("mc", 1))
+            for i, call in enumerate(case["calls"]):
+                if call.get("early"):
+                    early[i] = make_executor(built, call.get("sel"))
+        except BaseException as e:  # noqa: BLE001
+            res.viol("build-error", f"building / creating executors raised {type(e).__name__}: {e}")
+            return res
     for i, call in enumerate(case["calls"]):
         c = dict(case, **call)
         c.pop("calls")
         M = Model(c)
-        out = execute(c, M, built=built, pre=dict(pre))
+        out = execute(c, M, built=built, pre=dict(pre), target_override=early.get(i))
         res.evals += 1
         if out.build_exc is not None:
             res.viol("build-error", f"call {i}: building / selecting raised {type(out.build_exc).__name__}: {out.build_exc}")
@@ -50,7 +61,7 @@ def run_case(case: Dict[str, Any]) -> CaseResult:
             res.viol(r, m + tag, k)
         if out.exc is not None:
             res.viol("internal-error", f"the call raised {type(out.exc).__name__}: {out.exc}" + tag)
-        elif out.ref_exc is None and out.value != out.ref_value:
+        elif c.get("call") != "setup" and out.ref_exc is None and out.value != out.ref_value:
             res.viol("value", f"returned {out.value!r}, reference {out.ref_value!r}" + tag)
         if res.violations:
             return res
@@ -72,6 +83,10 @@ def run_case(case: Dict[str, Any]) -> CaseResult:
         res.cls("identical-args-pair")
     if any(c.get("sel") for c in case["calls"]):
         res.cls("sel")
+    if any(c.get("early") for c in case["calls"]):
+        res.cls("executor-created-early")
+    if any(c.get("call") == "setup" for c in case["calls"]):
+        res.cls("setup-call")
     if any(f.get("setup") for f in P["fns"].values()):
         res.cls("setup")
     if any(f.get("debug") for f in P["fns"].values()):
@@ -89,7 +104,7 @@ def cases(draw: Any, tier: str) -> Dict[str, Any]:
     P = draw(gen.flat_prog(min_sites=2, max_sites=9, max_deps=3, resources=gen.RES, prio_range=(-2, 3), seq_rate=0.1,
                            dep_kinds=("pos", "kw", "flag") if draw(st.booleans()) else ("pos", "kw"), reuse=True,
                            n_setup=draw(st.integers(0, 2)), n_debug=draw(st.integers(0, 2)),
-                           dup_rate=0.2, mark_roots=not want_sel))
+                           dup_rate=0.2, mark_roots=not want_sel, split_rate=0.25))
     if draw(st.sampled_from([True] + [False] * 7)):
         # one decorated function at 10-13 call sites: the per-call-site ids reach <<10>> and beyond
         n = draw(st.integers(10, 13))
@@ -108,11 +123,12 @@ def cases(draw: Any, tier: str) -> Dict[str, Any]:
         if a is not None and a[0] == "v":
             prod = [x for x in P["body"] if x["out"] == a[1]][0]
             f = P["fns"][prod["fn"]]
-            if not f.get("setup") and f.get("kind") not in ("tup", "dict"):
+            if not f.get("setup") and f.get("kind") not in ("tup", "dict") and not f.get("pair"):
                 f["kind"] = "const"
                 f["val"] = draw(st.sampled_from([0, 1, "", "x", None, True, False]))
     case: Dict[str, Any] = {"prog": P, "mc": base["mc"], "async": base["async"], "calls": []}
     has_debug = any(f.get("debug") for f in P["fns"].values())
+    has_setup = any(f.get("setup") for f in P["fns"].values())
     for _ in range(draw(st.integers(1, 3))):
         call: Dict[str, Any] = {"mode": draw(st.sampled_from(["ctl", "free"]))}
         if call["mode"] == "ctl":
@@ -121,6 +137,12 @@ def cases(draw: Any, tier: str) -> Dict[str, Any]:
             call["sleeps"] = {s["site"]: draw(st.integers(0, 3)) for s in P["body"] if draw(st.booleans())}
         call["sel"] = draw(sc.selection_strategy(P)) if (want_sel and draw(st.integers(0, 2)) > 0) else None
         call["debug"] = bool(has_debug and not call["sel"] and draw(st.booleans()))
+        if has_setup and not call["debug"] and draw(st.sampled_from([True, False, False, False])):
+            call["call"] = "setup"  # dag.setup(target_nodes=T): only the setup part of the selection runs
+            if call["sel"]:
+                call["sel"] = {"T": call["sel"].get("T"), "X": None, "R": None}
+        elif len(case["calls"]) > 0 and not call["debug"] and draw(st.sampled_from([True, False, False])):
+            call["early"] = True  # the executor object is created before the first call of the history
         case["calls"].append(call)
     return case
 
